@@ -68,9 +68,9 @@ Definition trunc_state (s0 : nstate) (keep : N) : nstate :=
   set_flushed (set_log s0 (st_logprev s0) (firstn (N.to_nat (keep - st_logprev s0)) (st_log s0))
                        (st_lastidx s0) (st_lastterm s0)) keep.
 
-(* openStorage: stale prefix behind the snapshot is dropped *)
+(* openStorage: a stale prefix behind the snapshot, or a tail that starts after it, is dropped *)
 Definition reset_state (s1 : nstate) : nstate :=
-  if log_lastindex s1 <? st_snapidx s1 then clear_log s1 else s1.
+  if (log_lastindex s1 <? st_snapidx s1) || (st_snapidx s1 <? st_logprev s1) then clear_log s1 else s1.
 
 Definition last_of (s : nstate) : N * N :=
   match rev (st_log s) with
@@ -150,13 +150,23 @@ Qed.
 
 Lemma reset_term_vote s : st_term (reset_state s) = st_term s /\ st_voted (reset_state s) = st_voted s /\
   st_snapidx (reset_state s) = st_snapidx s /\ st_snapterm (reset_state s) = st_snapterm s.
-Proof. unfold reset_state. destruct (_ <? _); cbn; repeat split; reflexivity. Qed.
+Proof. unfold reset_state. destruct (_ || _); cbn; repeat split; reflexivity. Qed.
 
-Lemma reset_noop s : st_snapidx s <= log_lastindex s -> reset_state s = s.
-Proof. unfold reset_state. intros H. destruct (_ <? _) eqn:E; [apply N.ltb_lt in E; lia|reflexivity]. Qed.
+Lemma reset_noop s : st_snapidx s <= log_lastindex s -> st_logprev s <= st_snapidx s -> reset_state s = s.
+Proof.
+  unfold reset_state. intros H H2.
+  destruct (log_lastindex s <? st_snapidx s) eqn:E; [apply N.ltb_lt in E; lia|].
+  destruct (st_snapidx s <? st_logprev s) eqn:E2; [apply N.ltb_lt in E2; lia|reflexivity].
+Qed.
 
 Lemma reset_stale s : log_lastindex s < st_snapidx s -> reset_state s = clear_log s.
 Proof. unfold reset_state. intros H. destruct (_ <? _) eqn:E; [reflexivity|apply N.ltb_ge in E; lia]. Qed.
+
+Lemma reset_detached s : st_snapidx s < st_logprev s -> reset_state s = clear_log s.
+Proof.
+  unfold reset_state. intros H. destruct (st_snapidx s <? st_logprev s) eqn:E; [rewrite orb_true_r; reflexivity|].
+  apply N.ltb_ge in E. lia.
+Qed.
 
 (* ---------------------------------------------------------------- list helpers *)
 
@@ -202,13 +212,15 @@ Qed.
    [restart_keeps_flushed_entries_original_refuted]. *)
 Lemma restart_keeps_flushed_entries :
   forall s keep s' i, restart s keep = Done s' -> i <= st_flushed s -> st_snapidx s <= keep ->
+    st_logprev s <= st_snapidx s ->
     st_flushed s <= log_lastindex s -> log_get s' i = log_get s i.
 Proof.
-  intros s keep s' i H Hi Hsnap _.
+  intros s keep s' i H Hi Hsnap Hconn _.
   apply restart_done in H. destruct H as [(K1 & K2 & K3) H].
   rewrite reset_noop in H.
   2:{ rewrite (trunc_lastindex s keep K2 K3). destruct (trunc_fields s keep) as (_ & _ & _ & _ & S2 & _).
       rewrite S2. exact Hsnap. }
+  2:{ destruct (trunc_fields s keep) as (_ & _ & P2 & _ & S2 & _). rewrite P2, S2. exact Hconn. }
   apply restart_tail_fields in H. destruct H as (_ & _ & P & L & _).
   destruct (trunc_fields s keep) as (_ & _ & P2 & L2 & _).
   unfold log_get. rewrite P, L, P2, L2.
@@ -217,30 +229,33 @@ Proof.
 Qed.
 
 Lemma restart_log_contiguous_with_snapshot :
-  forall s keep s', restart s keep = Done s' -> st_logprev s <= st_snapidx s -> log_indexed s ->
+  forall s keep s', restart s keep = Done s' -> log_indexed s ->
     st_logprev s' <= st_snapidx s' /\ st_snapidx s' <= st_lastidx s' /\ st_lastidx s' = N.max (log_lastindex s') (st_snapidx s').
 Proof.
-  intros s keep s' H Hprev Hidx.
+  intros s keep s' H Hidx.
   apply restart_done in H. destruct H as [(K1 & K2 & K3) H].
   apply restart_tail_fields in H. destruct H as (_ & _ & P & L & S & _ & LI & _).
   destruct (reset_term_vote (trunc_state s keep)) as (_ & _ & S1 & _).
   destruct (trunc_fields s keep) as (_ & _ & P2 & L2 & S2 & _).
   unfold log_lastindex. rewrite P, L, S, S1, S2, LI. clear P L S LI S1.
   unfold last_of, reset_state.
-  rewrite (trunc_lastindex s keep K2 K3), S2.
-  destruct (keep <? st_snapidx s) eqn:E.
+  rewrite (trunc_lastindex s keep K2 K3), S2, P2.
+  destruct (keep <? st_snapidx s) eqn:E; cbn [orb].
   - (* stale prefix: log reset to the snapshot *)
     cbn. lia.
-  - apply N.ltb_ge in E. rewrite P2, L2.
-    destruct (rev (firstn (N.to_nat (keep - st_logprev s)) (st_log s))) as [|x r] eqn:R.
-    + (* nothing left in the log *)
-      assert (firstn (N.to_nat (keep - st_logprev s)) (st_log s) = []) as Z.
-      { rewrite <- (rev_involutive (firstn _ _)), R. reflexivity. }
-      rewrite Z. cbn [length fst]. apply (f_equal (@length _)) in Z. rewrite firstn_length in Z.
-      unfold log_lastindex in K2. cbn [length] in Z. lia.
-    + apply rev_head_nth in R. destruct R as [R Hlen].
-      apply nth_error_firstn_some in R. apply Hidx in R. cbn [fst]. rewrite R.
-      rewrite firstn_length in *. unfold log_lastindex in K2. lia.
+  - destruct (st_snapidx s <? st_logprev s) eqn:E0.
+    + (* tail that starts after the snapshot: reset as well *)
+      cbn. lia.
+    + apply N.ltb_ge in E. apply N.ltb_ge in E0. rewrite P2, L2.
+      destruct (rev (firstn (N.to_nat (keep - st_logprev s)) (st_log s))) as [|x r] eqn:R.
+      * (* nothing left in the log *)
+        assert (firstn (N.to_nat (keep - st_logprev s)) (st_log s) = []) as Z.
+        { rewrite <- (rev_involutive (firstn _ _)), R. reflexivity. }
+        rewrite Z. cbn [length fst]. apply (f_equal (@length _)) in Z. rewrite firstn_length in Z.
+        unfold log_lastindex in K2. cbn [length] in Z. lia.
+      * apply rev_head_nth in R. destruct R as [R Hlen].
+        apply nth_error_firstn_some in R. apply Hidx in R. cbn [fst]. rewrite R.
+        rewrite firstn_length in *. unfold log_lastindex in K2. lia.
 Qed.
 
 (* indexedness and [logprev <= snapidx] at the three crash points *)
@@ -281,7 +296,7 @@ Lemma install_crash_points_restart_contiguous :
 Proof.
   intros s q cs keep s' Hin Hidx Hprev H.
   destruct (install_crash_states_ok s q cs Hin Hidx Hprev) as [I P].
-  destruct (restart_log_contiguous_with_snapshot cs keep s' H P I) as (A & B & _). auto.
+  destruct (restart_log_contiguous_with_snapshot cs keep s' H I) as (A & B & _). auto.
 Qed.
 
 Lemma restart_role_and_config :
@@ -351,3 +366,40 @@ Proof.
   split; [vm_compute; reflexivity|].
   repeat split; vm_compute; discriminate.
 Qed.
+
+(* ---------------------------------------------------------------- crash inside Log.Reset (finding D19)
+   Log.Reset removes the segment files oldest first and then creates the new one.  A crash after
+   some removals leaves the TAIL of the old log: a log that starts after the published snapshot.
+   Before the second repair openStorage only reset a log that ENDS before the snapshot. *)
+Definition restart_before_fix2 (s0 : nstate) (keep : N) : outcome nstate :=
+  if negb (keep_ok s0 keep) then Err EBug else
+  let t := trunc_state s0 keep in
+  restart_tail (if log_lastindex t <? st_snapidx t then clear_log t else t).
+
+(* node 1 held entries 1..7; a snapshot at index 3 was installed over a conflicting entry, so the log
+   is being reset; the segment holding entries 1..5 is already removed, the one holding 6..7 not yet *)
+Definition wit3_crash : nstate :=
+  mkNode_ 7 1 1 0 5
+    [mkEntry 6 1 entryNop []; mkEntry 7 1 entryNop []]
+    7 7 1 3 2 wit_cfg wit_cfg wit_cfg
+    Follower 2 3 true false None false 3 1 false 0%Z false None.
+
+Lemma wit3_indexed : log_indexed wit3_crash.
+Proof.
+  intros k e H. destruct k as [|[|k']]; cbn in H.
+  - inversion H; subst; reflexivity.
+  - inversion H; subst; reflexivity.
+  - destruct k'; discriminate.
+Qed.
+
+Lemma reset_crash_before_fix2_refuted :
+  exists cs keep s', log_indexed cs /\ st_snapidx cs < st_logprev cs /\
+    restart_before_fix2 cs keep = Done s' /\ st_snapidx s' < st_logprev s'.
+Proof.
+  exists wit3_crash, 7. eexists. split; [exact wit3_indexed|].
+  split; [vm_compute; reflexivity|]. split; [vm_compute; reflexivity|]. vm_compute. reflexivity.
+Qed.
+
+Lemma reset_crash_after_fix2_witness :
+  exists s', restart wit3_crash 7 = Done s' /\ st_logprev s' = 3 /\ st_log s' = [] /\ st_lastidx s' = 3 /\ st_snapidx s' = 3.
+Proof. eexists. split; [vm_compute; reflexivity|]. vm_compute. auto. Qed.
